@@ -1287,6 +1287,24 @@ def run_c11(ctx):
         for (c, e), r in zip(ident, ri[w]):
             if r != e:
                 rep.fail('hide of a hidden AVP / reveal of a non-hidden AVP is not the identity', case=c[:400], executor=w, got=r[:300])
+    # very long length paddings: thousands of cipher blocks (implementation only; the direct predicate needs no model)
+    big = []
+    for lpn in (1100, 4090, 65400, 65522):
+        v = rand_avp(rng, rng.choice(['HostName', 'VendorName', 'AssignedTunnelId', 'ResultCode']), maxpay=200)
+        a = hide_args(rng)
+        big.append((v, a[0][:40], a[1], rbytes(rng, lpn), a[3]))
+    hb = ctx.runner.run(['HIDE\t%s\t%s\t%s\t%s\t%s' % (v, s.hex(), rv.hex(), lp.hex(), ap.hex()) for (v, s, rv, lp, ap) in big], IMPLS)
+    for w in IMPLS:
+        ok = [i for i in range(len(big)) if hb[w][i].startswith('Ok Hidden(')]
+        rb = ctx.runner.run(['REVEAL\t%s\t%s\t%s' % (hb[w][i][3:], big[i][1].hex(), big[i][2].hex()) for i in ok], (w,))
+        for k, i in enumerate(ok):
+            rep.evaluations += 1
+            rep.dist['long_padding'] += 1
+            if rb[w][k] != 'Ok ' + big[i][0]:
+                rep.fail('reveal(hide(a)) != a with a length padding of %d octets' % len(big[i][3]), case=('HIDE\t%s ...' % big[i][0])[:300], executor=w, revealed=rb[w][k][:200])
+        for i in range(len(big)):
+            if i not in ok:
+                rep.fail('hide did not return a Hidden AVP', case=('HIDE\t%s ...' % big[i][0])[:300], executor=w, result=hb[w][i][:200])
     rep.notes['rule'] = ('all 39 kinds, block counts 1..63 (thorough: 1..64 each with -1/0/+1 octets), empty/short/long secrets, empty and 1-40 octet '
                          'length paddings: HIDE -> REVEAL, HIDE -> ENCA -> AVPS -> REVEAL, identity on the other variant')
     rep.notes['channels'] = ['HIDE', 'REVEAL', 'ENCA', 'AVPS']
